@@ -72,6 +72,8 @@ for k in ["tensor.(*Dense).Outer(t)", "tensor.(*Dense).Outer(other)", "tensor.(S
 for k in ["tensor.(*Dense).Concat(t)", "tensor.(*Dense).Hstack(t)", "tensor.(*Dense).Vstack(t)", "tensor.(StdEng).Concat(t)", "tensor.(StdEng).Concat(others)", "tensor.Concat(t)"]:
     finding(["C10","C18"], "P2", k, "denseConcat reshapes row-vector operands and clears a masked operand's mask (mt.SetMask(nil)); the restore is commented out", "writes AP.fin, AP.shape, AP.strides, Dense.mask", 16)
 
+finding(["C08","C07"], "EC", "tensor.(StdEng).prepReduce#Reshape1", "prepReduce drops the error of reuse.Reshape(newShape...): a reuse tensor that cannot be reshaped (non-contiguous view) is reduced into with its old shape", "dropped Reshape", 23)
+
 # ---- engine L (layout predicates) ------------------------------------------------------------
 finding(["C12","C16","C07","C06","C11","C04"], "L0", "tensor.prepDataUnary#useIter",
         "prepDataUnary has no data-order term: Neg(colA, WithIncr(rowZeros)) adds raw column-major data into a row-major buffer (non-incr reuse is compensated by handleFuncOpts giving reuse the operand's order)",
